@@ -78,10 +78,13 @@ def _tweak_helper(tree):
 class TapTree(DescriptorBase):
     def __init__(self, tree=None):
         """tree can be None, TapLeaf or a tuple (taptree, taptree)"""
+        # make sure all keys are taproot - on re-flagged copies, the caller's key objects
+        # are left alone (subtrees are TapTrees and have done the same already)
+        if isinstance(tree, TapLeaf) and tree.miniscript is not None:
+            ms = tree.miniscript.with_key_flag(True)
+            if ms is not tree.miniscript:
+                tree = type(tree)(ms, tree.version)
         self.tree = tree
-        # make sure all keys are taproot
-        for k in self.keys:
-            k.taproot = True
 
     def __bool__(self):
         return bool(self.tree)
